@@ -121,4 +121,84 @@ theorem crc32c_lt (msg : Bytes) : crc32c msg < 4294967296 := by
   unfold crc32c
   exact (crcRaw crcInit msg ^^^ crcInit).isLt
 
+/-! ### explicit GF(2)-linearity of the whole checksum -/
+
+/-- bytewise xor of two messages (to the shorter length) -/
+def xorBytes : Bytes → Bytes → Bytes
+  | a :: as, b :: bs => (a ^^^ b) :: xorBytes as bs
+  | [], _ => []
+  | _ :: _, [] => []
+
+theorem crcStepN_xor (n : Nat) (a b : BitVec 32) : crcStepN n (a ^^^ b) = crcStepN n a ^^^ crcStepN n b := by
+  induction n generalizing a b with
+  | zero => rfl
+  | succ n ih => simp only [crcStepN, crcStep_xor, ih]
+
+theorem xor4 (s t x y : BitVec 32) : (s ^^^ t) ^^^ (x ^^^ y) = (s ^^^ x) ^^^ (t ^^^ y) := by
+  ext i hi
+  simp only [BitVec.getElem_xor]
+  cases s[i] <;> cases t[i] <;> cases x[i] <;> cases y[i] <;> rfl
+
+theorem crcFeed_xor (s t : BitVec 32) (a b : Nat) : crcFeed (s ^^^ t) (a ^^^ b) = crcFeed s a ^^^ crcFeed t b := by
+  unfold crcFeed
+  rw [BitVec.ofNat_xor, xor4, crcStepN_xor]
+
+/-- the raw LFSR is linear in (state, message) jointly -/
+theorem crcRaw_xor : ∀ (a b : Bytes) (s t : BitVec 32), a.length = b.length →
+    crcRaw (s ^^^ t) (xorBytes a b) = crcRaw s a ^^^ crcRaw t b := by
+  intro a
+  induction a with
+  | nil => intro b s t h; cases b with
+    | nil => rfl
+    | cons y ys => simp at h
+  | cons x xs ih =>
+    intro b s t h
+    cases b with
+    | nil => simp at h
+    | cons y ys =>
+      simp only [List.length_cons, Nat.add_right_cancel_iff] at h
+      simp only [xorBytes, crcRaw, List.foldl_cons]
+      rw [crcFeed_xor]
+      exact ih ys _ _ h
+
+theorem xorBytes_zero (a : Bytes) : xorBytes a (List.replicate a.length 0) = a := by
+  induction a with
+  | nil => rfl
+  | cons x xs ih => simp [List.replicate_succ, xorBytes, ih]
+
+theorem xorBytes_length (a b : Bytes) (h : a.length = b.length) : (xorBytes a b).length = a.length := by
+  induction a generalizing b with
+  | nil => cases b <;> simp [xorBytes]
+  | cons x xs ih =>
+    cases b with
+    | nil => simp at h
+    | cons y ys =>
+      simp only [List.length_cons, Nat.add_right_cancel_iff] at h
+      simp [xorBytes, ih ys h]
+
+/-- **CRC-32C is affine over GF(2)**: for messages of equal length,
+`crc (a ⊕ b) = crc a ⊕ crc b ⊕ crc (0…0)`. -/
+theorem crc32c_affine (a b : Bytes) (h : a.length = b.length) :
+    crc32c (xorBytes a b) = crc32c a ^^^ crc32c b ^^^ crc32c (List.replicate a.length 0) := by
+  unfold crc32c
+  rw [← BitVec.toNat_xor, ← BitVec.toNat_xor]
+  congr 1
+  have h1 := crcRaw_xor a b crcInit crcInit h
+  have hl : (xorBytes a b).length = (List.replicate a.length 0).length := by
+    rw [xorBytes_length a b h]; simp
+  have h2 := crcRaw_xor (xorBytes a b) (List.replicate a.length 0) (crcInit ^^^ crcInit) crcInit hl
+  rw [h1] at h2
+  have hz : xorBytes (xorBytes a b) (List.replicate a.length 0) = xorBytes a b := by
+    have := xorBytes_zero (xorBytes a b)
+    rw [xorBytes_length a b h] at this
+    exact this
+  rw [hz] at h2
+  have hi : (crcInit ^^^ crcInit) ^^^ crcInit = crcInit := by simp
+  rw [hi] at h2
+  rw [h2]
+  ext i hi
+  simp only [BitVec.getElem_xor]
+  cases (crcRaw crcInit a)[i] <;> cases (crcRaw crcInit b)[i] <;>
+    cases (crcRaw crcInit (List.replicate a.length 0))[i] <;> cases crcInit[i] <;> rfl
+
 end NoKV.Wal
